@@ -20,7 +20,8 @@ func checkC08(c *Ctx, r *Report) {
 	r.rule("C08.DISPATCH", "each call to the selection-set resolver under an abstract arm passes a member/registry *Object selected under objType == meta, never the dispatcher's own static type")
 	r.rule("C08.COND", "the fragment applicability test reads Object.Interfaces or Union.Members (directly or through a helper)")
 	r.rule("C08.SIB", "inline fragments and fragment spreads use the same set of applicability tests")
-	r.rule("C08.META", "who-may-write Object.meta: frozen table")
+	r.rule("C08.META", "who-may-write Object.meta: frozen table; every write outside construction is write-once")
+	r.rule("C08.BIND", "the Go field/method binding of a FieldDef is computed from the object type that owns that FieldDef")
 	a := c.anchors()
 	if !requireAnchors(r, "C08.DISPATCH", a) {
 		return
@@ -32,6 +33,7 @@ func checkC08(c *Ctx, r *Report) {
 	c08Dispatch(c, r, a)
 	c08Cond(c, r, a)
 	c08Meta(c, r)
+	c08Bind(c, r)
 }
 
 func c08Dispatch(c *Ctx, r *Report, a *Anchors) {
@@ -249,9 +251,130 @@ func c08Meta(c *Ctx, r *Report) {
 				n++
 				_, ok = allowed[fnName(fn)]
 				r.check("C08.META", fmt.Sprintf("%s: writes Object.meta", fnName(fn)), st.Pos(), ok, "the Go type binding of an object type is written by a function outside the reviewed writer table")
+				if rootAlloc(fa.X) == nil {
+					r.check("C08.META", fmt.Sprintf("%s: the binding is written once (only while unset or to the same Go type)", fnName(fn)), st.Pos(), metaWriteOnce(st, fa),
+						"an established Go type binding can be replaced: a value of another Go type resolved under an object-typed field rebinds the type, after which union / interface dispatch by Go type no longer finds the member")
+				}
 			}
 		}
 	}
 	r.floor("C08.META", "stores to Object.meta", n, 2)
 	_ = types.Typ
+}
+
+// metaWriteOnce: on every way into the store's block the bound type is known to be unset, or equal to the value stored.
+func metaWriteOnce(st *ssa.Store, fa *ssa.FieldAddr) bool {
+	want := vpath(fa)
+	isMeta := func(v ssa.Value) bool {
+		u, ok := v.(*ssa.UnOp)
+		return ok && u.Op == token.MUL && vpath(u.X) == want
+	}
+	says := func(g guard) bool {
+		g = normGuard(g)
+		if v, eq, ok := nilCmp(g.cond); ok && isMeta(v) && eq == g.val {
+			return true // meta == nil holds
+		}
+		if bo, ok := g.cond.(*ssa.BinOp); ok && (bo.Op == token.EQL || bo.Op == token.NEQ) {
+			same := (isMeta(bo.X) && bo.Y == st.Val) || (isMeta(bo.Y) && bo.X == st.Val)
+			if same && (bo.Op == token.EQL) == g.val {
+				return true // meta == new value holds
+			}
+		}
+		return false
+	}
+	b := st.Block()
+	for _, g := range blockGuards(b) {
+		if says(g) {
+			return true
+		}
+	}
+	if len(b.Preds) == 0 {
+		return false
+	}
+	for _, p := range b.Preds {
+		ok := false
+		for _, g := range edgeGuards(p, b) {
+			if says(g) {
+				ok = true
+			}
+		}
+		if !ok {
+			return false
+		}
+	}
+	return true
+}
+
+// c08Bind: a FieldDef's Go binding (goField / method) is looked up in the Go type bound to one object type. The binder must
+// therefore be handed a FieldDef that belongs to that same object: a FieldDef of an interface is shared by all implementers
+// and must not be bound through one of them.
+func c08Bind(c *Ctx, r *Report) {
+	binders := map[*ssa.Function]bool{}
+	for _, fn := range c.allFns {
+		for _, b := range fn.Blocks {
+			for _, in := range b.Instrs {
+				st, ok := in.(*ssa.Store)
+				if !ok {
+					continue
+				}
+				fa, ok := st.Addr.(*ssa.FieldAddr)
+				if !ok {
+					continue
+				}
+				if o, f := fieldOwner(fa.X.Type(), fa.Field); o == "FieldDef" && (f == "goField" || f == "method") && rootAlloc(fa.X) == nil {
+					binders[fn] = true
+				}
+			}
+		}
+	}
+	n := 0
+	for _, fn := range c.allFns {
+		if binders[fn] {
+			continue
+		}
+		k := 0
+		for _, ci := range callsIn(fn) {
+			cal := ci.Common().StaticCallee()
+			if cal == nil || !binders[cal] {
+				continue
+			}
+			var objArg, fdArg ssa.Value
+			for _, a := range ci.Common().Args {
+				switch derefNamed(a.Type()) {
+				case "Object":
+					objArg = a
+				case "FieldDef":
+					fdArg = a
+				}
+			}
+			if objArg == nil || fdArg == nil {
+				continue
+			}
+			n++
+			k++
+			want := vpath(objArg)
+			ok := true
+			why := ""
+			ls, _ := phiLeaves(fdArg)
+			for _, l := range ls {
+				call, isCall := l.val.(*ssa.Call)
+				if !isCall || call.Call.StaticCallee() == nil {
+					ok, why = false, "the field definition is not the result of a field lookup"
+					continue
+				}
+				cl := call.Call.StaticCallee()
+				recv := callRecv(call)
+				switch {
+				case cl.Name() == "GetField" && recv != nil && derefNamed(recv.Type()) == "Object" && vpath(recv) == want:
+				case cl.Name() == "get" && recv != nil && derefNamed(recv.Type()) == "fieldList" && vpath(recv) == want+".fields":
+				default:
+					ok = false
+					why = fmt.Sprintf("the field definition comes from %s on %s, the Go type from %s", fnName(cl), vpath(recv), want)
+				}
+			}
+			r.check("C08.BIND", fmt.Sprintf("%s: binder call #%d (%s) binds a field definition of the same object type", fnName(fn), k, fnName(cal)), ci.Pos(), ok,
+				"a field definition owned by another type (an interface shared by several object types) is bound to one object's Go type: values of the other implementers are then read through the wrong field or method; "+why)
+		}
+	}
+	r.floor("C08.BIND", "calls to the field binder", n, 3)
 }
